@@ -182,10 +182,10 @@ func (k Keeper) AddDeposit(ctx sdk.Context, receiverAddr, senderAddr sdk.AccAddr
 		}
 
 		// stream expired or new. Calculate from now
-		depositZeroTime = nowTime.Add(time.Second * time.Duration(durationExtension))
+		depositZeroTime, ok = types.AddSecondsToTime(nowTime, durationExtension)
 	} else {
 		// stream not expired. Add to current deposit zero time
-		depositZeroTime = stream.DepositZeroTime.Add(time.Second * time.Duration(durationExtension))
+		depositZeroTime, ok = types.AddSecondsToTime(stream.DepositZeroTime, durationExtension)
 	}
 
 	// Send topUpDeposit from user acc to module acc
@@ -193,6 +193,12 @@ func (k Keeper) AddDeposit(ctx sdk.Context, receiverAddr, senderAddr sdk.AccAddr
 
 	if err != nil {
 		return false, err
+	}
+
+	// an unaffordable deposit is reported as such (above); one the sender can afford but
+	// whose duration cannot be represented is refused here
+	if !ok {
+		return false, sdkerrors.Wrap(types.ErrInvalidData, "deposit zero time out of range. Use a higher flow rate or a smaller deposit")
 	}
 
 	// set and save new stream data
@@ -255,7 +261,11 @@ func (k Keeper) SetNewFlowRate(ctx sdk.Context, receiverAddr, senderAddr sdk.Acc
 		// above. We're effectively creating a "new" stream, based on existing deposit value
 		// and the new flow rate
 		duration = types.CalculateDuration(stream.Deposit, newFlowRate)
-		depositZeroTime = nowTime.Add(time.Second * time.Duration(duration))
+		var inRange bool
+		depositZeroTime, inRange = types.AddSecondsToTime(nowTime, duration)
+		if !inRange {
+			return sdkerrors.Wrap(types.ErrInvalidData, "deposit zero time out of range. Use a higher flow rate")
+		}
 	}
 
 	// save new stream data
